@@ -8,8 +8,8 @@ TARGETS = ['Props/C11.vo', 'Corr/XTree.vo']
 PROPS_FILE = 'Props/C11.v'
 W, O, A, AO = ['w', 'write'], ['o', 'overwrite'], ['a', '+', 'append'], ['oa', 'ao', 'o+', '+o', 'appendover']
 BAD = ['x', '', 'W', 'A', 'wo', 'app', 'r', 'overwrite ', 'a+']
-OLD = ['absent', 'junk', 'h5', 'h5_fake_header', 'emd', 'emd_other']
-RULE = ('exhaustive product: every spelling of every mode (12) + 9 invalid strings x old content {absent, junk bytes, non-EMD HDF5, '
+OLD = ['absent', 'junk', 'empty', 'h5', 'h5_fake_header', 'emd', 'emd_other']
+RULE = ('exhaustive product: every spelling of every mode (12) + 9 invalid strings x old content {absent, junk bytes, zero-length file, non-EMD HDF5, '
         'HDF5 with EMD header but no roots, EMD file holding the same root name, EMD file holding another root} x emdpath {none, '
         'root, missing} x tree option x target {root, inner node, unrooted node}; a reference save of the same target into a '
         'fresh path is made in every scenario; non-trivial = distinct (mode, old content, emdpath, tree, target)')
@@ -38,7 +38,7 @@ def cases(seed, tier):
         paths = [p for p in T.all_paths(t) if p]
         top, tp = (0, []) if tgt == 'root' else (0, rng.choice(paths)) if tgt == 'inner' and paths else (2, [])
         steps = []
-        if old in ('junk', 'h5', 'h5_fake_header'):
+        if old in ('junk', 'empty', 'h5', 'h5_fake_header'):
             steps.append({'op': 'raw', 'file': 0, 'kind': old})
         elif old in ('emd', 'emd_other'):
             steps.append({'op': 'save', 'file': 0, 'top': 1, 'tp': [], 'mode': 'w', 'tree': True})
